@@ -32,7 +32,7 @@ USER = "Pair-Setup"
 def _client(code, salt, a, B_pad):
     from aiohomekit.crypto import srp as lib
 
-    orig = lib.Srp.generate_private_key
+    orig = lib.Srp.__dict__["generate_private_key"]  # the descriptor itself (a staticmethod): what getattr returns would come back as an instance method
     lib.Srp.generate_private_key = staticmethod(lambda: a)
     try:
         c = lib.SrpClient(USER, code)
@@ -185,7 +185,7 @@ def case_interleaved(p):
                 step = STEPS[pos[who]]
                 pos[who] += 1
                 if step == "new":
-                    orig = lib.Srp.generate_private_key
+                    orig = lib.Srp.__dict__["generate_private_key"]  # the descriptor itself (a staticmethod): what getattr returns would come back as an instance method
                     lib.Srp.generate_private_key = staticmethod(lambda a=int(e["a"], 16): a)
                     try:
                         cl[who] = lib.SrpClient(USER, e["code"])
